@@ -12,8 +12,6 @@ Open Scope N_scope.
 Definition c10_op (o : op) : bool :=
   match o with OpEvent _ | OpSocks => false | _ => true end.
 
-Definition c10_scope (i : cfg_input) : bool := in_scope i && forallb c10_op (i_ops i).
-
 Definition oracle (i : cfg_input) (tr : list obs) : bool := cfg_oracle i tr.
 
 (* ------------------------------------------------------------------ finding classes
@@ -23,11 +21,12 @@ Definition oracle (i : cfg_input) (tr : list obs) : bool := cfg_oracle i tr.
    F1 emptied_list_saved: save() is called while a list option is pending with NO elements
       (emptied in place, or assigned []).
    (F2 failed_listop_marks_pending is repaired in the source.)
+   m_fs is not a finding but an envelope flag: a Copy whose source has a pending change.
    F3 edit_while_detached: an in-place operation on an option whose pending value is not the
       list a read returns: the option was assigned since the last save() attempt, or its
       pending value is a string (comma list assigned as text), or Tor announced a new value
       for it (CONF_CHANGED) while it was pending. *)
-Record mon := { m_st : ost; m_det : list bytes; m_f1 : bool; m_f3 : bool }.
+Record mon := { m_st : ost; m_det : list bytes; m_f1 : bool; m_f3 : bool; m_fs : bool }.
 
 Section Mon.
   Variable opts : list (bytes * kind).
@@ -47,8 +46,8 @@ Section Mon.
         match dfind_ci name opts with
         | Some (cn, k) =>
             match spec_validate k v with
-            | Some _ => {| m_st := st'; m_det := cn :: m_det m; m_f1 := m_f1 m; m_f3 := m_f3 m |}
-            | None => {| m_st := st'; m_det := m_det m; m_f1 := m_f1 m; m_f3 := m_f3 m |}
+            | Some _ => {| m_st := st'; m_det := cn :: m_det m; m_f1 := m_f1 m; m_f3 := m_f3 m; m_fs := m_fs m |}
+            | None => {| m_st := st'; m_det := m_det m; m_f1 := m_f1 m; m_f3 := m_f3 m; m_fs := m_fs m |}
             end
         | None => m
         end
@@ -56,7 +55,7 @@ Section Mon.
         match dfind_ci name opts with
         | Some (cn, k) =>
             {| m_st := st'; m_det := m_det m; m_f1 := m_f1 m;
-               m_f3 := m_f3 m || mem_bytes cn (m_det m) |}
+               m_f3 := m_f3 m || mem_bytes cn (m_det m); m_fs := m_fs m |}
         | None => m
         end
     | OpSave rej =>
@@ -65,14 +64,21 @@ Section Mon.
         | pend =>
             {| m_st := st';
                m_det := match rej with None => [] | Some _ => scalar_keys pend end;
-               m_f1 := m_f1 m || has_empty_list pend; m_f3 := m_f3 m |}
+               m_f1 := m_f1 m || has_empty_list pend; m_f3 := m_f3 m; m_fs := m_fs m |}
         end
     | OpEvent items =>
         {| m_st := st';
            m_det := concat (map (fun it : bytes * option bytes =>
                                    let cn := canon opts (fst it) in
                                    if dmem cn (s_pend st) then [cn] else []) items) ++ m_det m;
-           m_f1 := m_f1 m; m_f3 := m_f3 m |}
+           m_f1 := m_f1 m; m_f3 := m_f3 m; m_fs := m_fs m |}
+    | OpCopy dst src =>
+        match dfind_ci dst opts, dfind_ci src opts with
+        | Some (cd, _), Some (cs, _) =>
+            {| m_st := st'; m_det := cd :: m_det m; m_f1 := m_f1 m; m_f3 := m_f3 m;
+               m_fs := m_fs m || dmem cs (s_pend st) |}
+        | _, _ => m
+        end
     | OpRead _ | OpNeedsSave | OpSocks => m
     end.
 
@@ -81,10 +87,17 @@ End Mon.
 
 Definition mon_of (i : cfg_input) : mon :=
   mon_run (options (i_table i)) (i_defaults i)
-          {| m_st := eff_ost i; m_det := []; m_f1 := false; m_f3 := false |} (i_ops i).
+          {| m_st := eff_ost i; m_det := []; m_f1 := false; m_f3 := false; m_fs := false |} (i_ops i).
 
 Definition emptied_list_saved (i : cfg_input) : bool := m_f1 (mon_of i).
 Definition edit_while_detached (i : cfg_input) : bool := m_f3 (mon_of i).
 
 Definition c10_known (i : cfg_input) : bool :=
   emptied_list_saved i || edit_while_detached i.
+
+(* outside the envelope (history dependent): config.A = config.B while B has a pending change --
+   whether a read of B then shows the pending or the saved list is what finding F3 is about *)
+Definition copy_of_pending (i : cfg_input) : bool := m_fs (mon_of i).
+
+Definition c10_scope (i : cfg_input) : bool :=
+  in_scope i && forallb c10_op (i_ops i) && negb (copy_of_pending i).
